@@ -4,10 +4,11 @@ ID="$1"; shift
 P=/verif/seeded/$ID/patch.diff
 cd /repo || exit 2
 git diff --quiet || { echo "/repo not clean"; exit 2; }
+trap "git -C /repo checkout -- ." EXIT
 git apply "$P" || { echo "patch does not apply"; exit 2; }
 for p in "$@"; do
   echo "--- $ID vs $p (${TIER:-quick})"
   (cd /verif && VERIF_EVIDENCE_DIR=/verif/build/seed-evidence python3 verif.py check "$p" --tier "${TIER:-quick}" 2>&1 | grep -E "^VIOLATION|key=|^C[0-9]+ |INCONCL|HARNESS" | cut -c1-180 | head -${LINES_MAX:-7})
 done
-git -C /repo checkout -- .
+git -C /repo checkout -- . ; trap - EXIT
 git -C /repo diff --quiet && echo "(repo restored)"
